@@ -60,10 +60,11 @@ def units(tier, seed):
             n = len(case_list(name, label, cfg, tier))
             for k in range(0, n, CHUNK):
                 us.append(('%s/%s/%d' % (name, label, k), {'scheme': name, 'label': label, 'cfg': cfg, 'lo': k, 'hi': k + CHUNK}))
+        us.append(('sweep/%s' % name, {'sweep': name}))
     return us
 
 
-def run_case(r, seed, name, label, cfg, profile, kwlen, relation):
+def run_case(r, seed, name, label, cfg, profile, kwlen, relation, cache=None):
     case = {'scheme': name, 'label': label, 'cfg': cfg, 'profile': profile, 'kwlen': kwlen, 'relation': relation}
     core.note_case(case)
     kwlen = min(kwlen, sse.kw_limit(name, cfg))
@@ -89,7 +90,7 @@ def run_case(r, seed, name, label, cfg, profile, kwlen, relation):
     if name == 'CJJ14.PiPtr' and sse.pi_param(name, cfg, profile)[0] + 1 > 256:
         r.count('piptr-index-2-bytes')
     try:
-        scheme = L.SSEScheme(cfg2)
+        scheme = sse.shared_scheme(cache, L, cfg2) if cache is not None else L.SSEScheme(cfg2)
         key = scheme.KeyGen()
         edb = scheme.EDBSetup(key, db)
         r['transitions'] += 2
@@ -119,16 +120,48 @@ def run_case(r, seed, name, label, cfg, profile, kwlen, relation):
         r.sample({'scheme': name, 'cfg_point': label, 'profile': profile, 'kwlen': kwlen, 'relation': relation})
 
 
+def run_sweep(r, seed, name, tier):
+    """ALL configuration points of one scheme in ONE process, forwards and then backwards, a few databases each: state that
+    outlives a scheme object (class attributes, module-level caches keyed too coarsely) is carried from one configuration
+    to the next deterministically, whatever the pool's assignment of units to processes"""
+    pts = sse.grid(name, tier)
+    for rnd, seq in enumerate((pts, pts[::-1])):
+        for label, cfg in seq:
+            for prof in ([2, 1], [5], [1, 1, 3]):
+                if sse.valid_profile(name, cfg, prof):
+                    n0 = len(r['violations'])
+                    run_case(r, seed, name, label, cfg, prof, 6, 'disjoint')
+                    for v in r['violations'][n0:]:
+                        v['case']['sweep'] = True
+                    r.count('sweep-cases')
+
+
 def run_unit(p, tier, seed):
     r = core.Result()
+    if 'sweep' in p:
+        run_sweep(r, seed, p['sweep'], tier)
+        det.restore()
+        return r
     name, label, cfg = p['scheme'], p['label'], p['cfg']
-    for profile, kwlen, relation in case_list(name, label, cfg, tier)[p['lo']:p['hi']]:
-        run_case(r, seed, name, label, cfg, profile, kwlen, relation)
+    cache = {}
+    for i, (profile, kwlen, relation) in enumerate(case_list(name, label, cfg, tier)[p['lo']:p['hi']]):
+        n0 = len(r['violations'])
+        run_case(r, seed, name, label, cfg, profile, kwlen, relation, cache=cache)
+        for v in r['violations'][n0:]:
+            v['case']['unit'] = core.enc({'tier': tier, 'lo': p['lo'], 'index': i})
     det.restore()
     return r
 
 
 def replay(case, seed):
+    if case.get('sweep'):
+        full = run_unit({'sweep': case['scheme']}, 'quick', seed)
+        return [v for v in full['violations'] if core.dec(v['case']).get('label') == case['label']]
+    # the scheme object is shared by the cases of a unit: replay the unit's prefix up to and including the case
+    u = case.get('unit')
+    if u:
+        full = run_unit({'scheme': case['scheme'], 'label': case['label'], 'cfg': case['cfg'], 'lo': u['lo'], 'hi': u['lo'] + u['index'] + 1}, u['tier'], seed)
+        return [v for v in full['violations'] if core.dec(v['case']).get('profile') == case['profile']]
     r = core.Result()
     run_case(r, seed, case['scheme'], case['label'], case['cfg'], case['profile'], case['kwlen'], case['relation'])
     return r['violations']
